@@ -45,6 +45,12 @@ type scope struct {
 }
 
 func newScope(rootProvider *provider, parent *scope, ctx context.Context, cancel context.CancelFunc) (*scope, error) {
+	return newScopeDeferred(rootProvider, parent, ctx, cancel, false)
+}
+
+// newScopeDeferred creates a scope; with deferInit the caller is responsible
+// for calling runInitializers.
+func newScopeDeferred(rootProvider *provider, parent *scope, ctx context.Context, cancel context.CancelFunc, deferInit bool) (*scope, error) {
 	if ctx == nil {
 		ctx = context.Background()
 	}
@@ -65,20 +71,32 @@ func newScope(rootProvider *provider, parent *scope, ctx context.Context, cancel
 	ctx = context.WithValue(ctx, scopeContextKey{}, s)
 	s.context = ctx
 
-	// Initialize scoped services with no returns (initialization functions)
-	// These need to be called when the scope is created
-	for _, descriptor := range rootProvider.voidReturnScopedDescriptors {
+	// The root scope is initialized by the build once the singletons exist
+	if deferInit {
+		return s, nil
+	}
+
+	if err := s.runInitializers(); err != nil {
+		return nil, err
+	}
+
+	return s, nil
+}
+
+// runInitializers calls the scoped services with no returns (initialization
+// functions). These need to be called when the scope is created.
+func (s *scope) runInitializers() error {
+	for _, descriptor := range s.rootProvider.voidReturnScopedDescriptors {
 		if _, err := s.createInstance(descriptor); err != nil {
-			return nil, &ResolutionError{
+			return &ResolutionError{
 				ServiceType: descriptor.Type,
 				ServiceKey:  descriptor.Key,
 				Cause:       fmt.Errorf("failed to initialize scoped service: %w", err),
 			}
-
 		}
 	}
 
-	return s, nil
+	return nil
 }
 
 // Provider returns the parent provider that created this scope.
